@@ -69,6 +69,14 @@ var checks = map[string]checkCfg{
 		Rule:        "cases are rapid-generated histories of NFSv3 procedures 0..23 and MOUNT procedures with well-formed arguments on pre-seeded objects, arguments truncated at a 4-byte boundary or followed by random bytes, under four credentials, interleaved with read-only on/off switches through UpdatePolicyOptions and UpdateExportOptions; non-trivial = while read-only is in force a well-formed mutating procedure (SETATTR..COMMIT) was issued by an accepted credential; anti-vacuity label counts mutations that succeed while read-write; distinct = FNV-64 of the case JSON",
 		Assumptions: baseAssumptions,
 		Phases:      []phase{rp("rapid", "^TestC08$", 6, 1500, 16, 15000)}},
+	"C09": {Level: "exploration", Technique: "rapid allow-lists/addresses; three-way differential against a bit-level membership oracle + request gate",
+		Rule:        "each case draws an allow-list of 0-4 entries (single IPv4/IPv6 addresses, CIDRs of every prefix length 0-32/0-128, IPv4-mapped forms, malformed entries), the Secure flag and 4-16 probes (client placed at network-1, network, last, last+1, inside, outside, mapped and malformed forms; ports 0,1,1023,1024,1025,65535; any program/procedure); every probe is one decision compared three ways and one full request through HandleCall; non-trivial = the list is non-empty and the decision involves a CIDR or an IPv4-mapped client; distinct = FNV-64 of the case JSON; label decisions counts single decisions",
+		Assumptions: append([]string{"zoned client strings and IPv4-mapped CIDR entries shorter than /96 are generated but only checked for no-over-grant and agreement between the two filters (the statement does not define them)"}, baseAssumptions...),
+		Phases:      []phase{rp("rapid", "^TestC09$", 4, 1500, 16, 30000)}},
+	"C10": {Level: "exploration", Technique: "rapid credentials vs reference squash function (AuthResult, AuthContext after HandleCall, ACCESS group decision)",
+		Rule:        "each case draws a squash mode (valid, mixed case, unrecognised), a credential flavor, uid/gid from boundary and random values, 0-16 auxiliary gids, machine name length, and an AUTH_SYS body that is whole, truncated at a byte offset or declares an over-limit gid count; optionally the credential is pre-parsed and shared with the caller; non-trivial = the reference mapping differs from identity, or the credential must be rejected; distinct = FNV-64 of the case JSON",
+		Assumptions: append([]string{"machine names longer than 255 bytes are not generated (RFC 1831 bounds them, absnfs does not)", "for an unrecognised squash mode only uid/gid are judged (the statement does not define the auxiliary list)"}, baseAssumptions...),
+		Phases:      []phase{rp("rapid", "^TestC10$", 4, 3000, 16, 60000)}},
 	"C02": {Level: "exploration", Technique: "rapid histories vs POSIX tree model + cached-vs-uncached differential",
 		Rule:        "cases are rapid-generated sequential histories of LOOKUP/CREATE/MKDIR/SYMLINK/REMOVE/RMDIR/RENAME/READDIR(PLUS)/GETATTR/READLINK over names {a,b,c} to depth 3, addressed through every handle ever issued (stale ones included); each history runs under the all-off baseline and k cached configurations (quick 3, thorough 6 of 15); non-trivial = a read-type request on a name or directory affected by an earlier successful mutation, executed under a configuration with at least one cache on; distinct = FNV-64 of the case JSON",
 		Assumptions: append([]string{"documented latitude L1-L7 of DESIGN.md §5 C02 (REMOVE of empty dir, UNCHECKED/EXCLUSIVE on existing objects, error code identity not compared against the model, path-bound handles)"}, baseAssumptions...),
